@@ -195,6 +195,11 @@ func runScenario(r *Run, sc scenario, wellFormed func(storeOp) bool) {
 			r.Emit("sop dump 0 "+hx(o.ID), rig.dump(o.ID))
 		}
 		r.Dist["op:"+o.Kind]++
+		if ch := rig.changedReads(); ch != "" {
+			r.Violate("a value that an earlier read had returned was changed by a later operation: the store hands out (or writes through) a structure it keeps, so a read is not one atomic observation: "+ch,
+				map[string]any{"scenario": sc, "failing_op_index": i})
+			return
+		}
 		if o.Kind == "tick" || o.Kind == "sweep" {
 			continue
 		}
